@@ -13,8 +13,9 @@ structural recursion on the specification's pattern AST (the image of the engine
   (`none`: the pattern may match the empty string or starts with a back-reference);
 * `setAt p k` — the characters that can stand `k` positions after the start of a left-to-right match
   (`none`: offset `k` is not reached through fixed-width pieces on every path);
-* `prefixes maxLen maxCount p` — a finite list of literal strings one of which every left-to-right
-  match starts with (`[[]]`: nothing known), with an "exact" flag (the strings are the whole match);
+* `prefixes norm maxLen maxCount p` — a finite list of literal strings one of which every
+  left-to-right match starts with, up to the normalisation `norm` of runes (`[[]]`: nothing known),
+  with an "exact" flag (the strings are the whole match);
 * `leadLook p` — the body of the positive lookahead that every left-to-right match of `p` evaluates at
   its start position: every position fact of the body is a fact of `p`.
 
@@ -146,6 +147,10 @@ def cross (A B : List (List Nat)) : List (List Nat) := A.flatMap (fun a => B.map
 def canExtend (maxLen maxCount : Nat) (A C : List (List Nat)) : Bool :=
   decide (C.length ≤ maxCount) && A.all (fun a => decide (a.length < maxLen))
 
+/-- the runes of a leaf, normalised (`norm`: identity, or lower-casing for the ordinal-ignore-case
+    lists) and without duplicates -/
+def normChars (norm : Nat → Nat) (cs : List Nat) : List Nat := (cs.map norm).eraseDups
+
 /-- `n` guaranteed iterations of a body with exact strings `B`: (strings, all `n` iterations are in) -/
 def power (maxLen maxCount : Nat) (B : List (List Nat)) : Nat → List (List Nat) × Bool
   | 0 => ([[]], true)
@@ -156,54 +161,56 @@ def power (maxLen maxCount : Nat) (B : List (List Nat)) : Nat → List (List Nat
       if canExtend maxLen maxCount r.1 c then (c, true) else (r.1, false)
     else r
 
-/-- `(L, exact)`: the text at the start of every left-to-right success begins with a string of `L`;
-    if `exact`, the success consumed exactly that string.  `([[]], false)` says nothing.  `maxLen`,
-    `maxCount` bound the enumeration (any values are sound). -/
-def prefixes (maxLen maxCount : Nat) : Pat → List (List Nat) × Bool
-  | .chr pr =>
+/-- `(L, exact)`: the NORMALISED text at the start of every left-to-right success begins with a string
+    of `L`; if `exact`, the success consumed exactly that many characters.  `([[]], false)` says
+    nothing.  `norm` maps runes to representatives (identity: case-sensitive strings); `maxLen` and
+    `maxCount` bound the enumeration (any values are sound): strings are not extended once one has
+    reached `maxLen`, a concatenation hands its tail the share `maxCount / |head strings|`. -/
+def prefixes (norm : Nat → Nat) (maxLen : Nat) : Nat → Pat → List (List Nat) × Bool
+  | maxCount, .chr pr =>
     match setChars maxCount pr with
-    | some cs => (cs.map (fun c => [c]), true)
+    | some cs => ((normChars norm cs).map (fun c => [c]), true)
     | none => ([[]], false)
-  | .seq a b =>
-    let ia := prefixes maxLen maxCount a
+  | maxCount, .seq a b =>
+    let ia := prefixes norm maxLen maxCount a
     if ia.2 then
-      let ib := prefixes maxLen maxCount b
+      let ib := prefixes norm maxLen (maxCount / ia.1.length) b
       let c := cross ia.1 ib.1
       if canExtend maxLen maxCount ia.1 c then (c, ib.2) else (ia.1, false)
     else (ia.1, false)
-  | .alt a b =>
-    let ia := prefixes maxLen maxCount a
-    let ib := prefixes maxLen maxCount b
+  | maxCount, .alt a b =>
+    let ia := prefixes norm maxLen maxCount a
+    let ib := prefixes norm maxLen maxCount b
     if ia.1.length + ib.1.length ≤ maxCount then (ia.1 ++ ib.1, ia.2 && ib.2) else ([[]], false)
-  | .quant _ lo hi body =>
+  | maxCount, .quant _ lo hi body =>
     if lo = 0 then ([[]], false)
     else
-      let ib := prefixes maxLen maxCount body
+      let ib := prefixes norm maxLen maxCount body
       if ib.2 then
         let r := power maxLen maxCount ib.1 (min lo maxLen)
         (r.1, r.2 && decide (lo ≤ maxLen) && hi == some lo)
       else (ib.1, false)
-  | .cap _ b => prefixes maxLen maxCount b
-  | .atomic b => prefixes maxLen maxCount b
-  | .empty => ([[]], true)
-  | .anchor _ => ([[]], true)
-  | .look _ _ _ => ([[]], true)
-  | .nothing => ([[]], false)
-  | .ref _ _ => ([[]], false)
-  | .refCond _ _ _ => ([[]], false)
-  | .exprCond _ _ _ => ([[]], false)
+  | maxCount, .cap _ b => prefixes norm maxLen maxCount b
+  | maxCount, .atomic b => prefixes norm maxLen maxCount b
+  | _, .empty => ([[]], true)
+  | _, .anchor _ => ([[]], true)
+  | _, .look _ _ _ => ([[]], true)
+  | _, .nothing => ([[]], false)
+  | _, .ref _ _ => ([[]], false)
+  | _, .refCond _ _ _ => ([[]], false)
+  | _, .exprCond _ _ _ => ([[]], false)
 
-/-- `x` is a prefix of `t` up to the relation `R pattern-rune text-rune` (equality: case-sensitive
+/-- `x` is a prefix of `t` up to the relation `R published-rune text-rune` (equality: case-sensitive
     search; `t == x || toLower t == x`: the engine's ordinal-ignore-case comparison) -/
 def rPrefix (R : Nat → Nat → Bool) : List Nat → List Nat → Bool
   | [], _ => true
   | _ :: _, [] => false
   | a :: x, b :: t => R a b && rPrefix R x t
 
-/-- the validator for a published prefix list `E`: every string the over-approximation allows a match
-    to start with starts (up to `R`) with a published string -/
-def checkPrefixes (R : Nat → Nat → Bool) (E L : List (List Nat)) : Bool :=
-  L.all (fun l => E.any (fun x => rPrefix R x l))
+/-- the validator for a published prefix list `E`: every (normalised) string the over-approximation
+    allows a match to start with starts with a published string -/
+def checkPrefixes (E L : List (List Nat)) : Bool :=
+  L.all (fun l => E.any (fun x => rPrefix (fun a b => a == b) x l))
 
 /-! ### a leading positive lookahead -/
 
@@ -242,9 +249,9 @@ def setCandidates (p : Pat) (k : Nat) : List (List Pred) :=
 
 /-- the prefix lists a published `LeadingPrefixes`/`LeadingPrefix` is compared with: of the pattern and
     of the body of its leading positive lookahead -/
-def prefixCandidates (maxLen maxCount : Nat) (p : Pat) : List (List (List Nat)) :=
+def prefixCandidates (norm : Nat → Nat) (maxLen maxCount : Nat) (p : Pat) : List (List (List Nat)) :=
   match (leadLook p).1 with
-  | some b => [(prefixes maxLen maxCount p).1, (prefixes maxLen maxCount b).1]
-  | none => [(prefixes maxLen maxCount p).1]
+  | some b => [(prefixes norm maxLen maxCount p).1, (prefixes norm maxLen maxCount b).1]
+  | none => [(prefixes norm maxLen maxCount p).1]
 
 end RegexVerif.SetFacts
